@@ -12,8 +12,8 @@ func (vc *VC) mapHeaps(mt *types.Map) (string, string, string, string) {
 	ks, vs := vc.sortOf(mt.Key()), vc.sortOf(mt.Elem())
 	hv := "Hm_" + sanitize(ks) + "_" + sanitize(vs)
 	hp := "Hmp_" + sanitize(ks)
-	vc.ensureHeap(hv, "(Array "+ks+" "+vs+")")
-	vc.ensureHeap(hp, "(Array "+ks+" Bool)")
+	vc.ensureHeap(hv, "(Array "+ks+" "+vs+")", nil, false)
+	vc.ensureHeap(hp, "(Array "+ks+" Bool)", nil, false)
 	return hv, hp, ks, vs
 }
 
